@@ -72,7 +72,9 @@ func r03_1(c *Ctx, rule string) {
 		chk := c.checkedCallPred(callee)
 		x := c.explorer(loop)
 		x.From = recv
-		x.Barrier = func(in ssa.Instruction, st *eng.State) bool { return chk(in) || (in != ssa.Instruction(recv) && isRecv(in)) }
+		x.Barrier = func(in ssa.Instruction, st *eng.State) bool {
+			return chk(in) || (in != ssa.Instruction(recv) && isRecv(in))
+		}
 		x.Target = func(in ssa.Instruction, st *eng.State) bool { return target(in) }
 		x.StopAtTarget = true
 		h := x.Run()
@@ -171,7 +173,7 @@ func r03_1(c *Ctx, rule string) {
 		if c.P.IsTestFile(cs.Pos()) {
 			continue
 		}
-		c.R.Check(cs.Parent() == loop, rule, c.siteName(cs)+"/caller", c.pos(cs), "update is called from the receive loop", "dynamicWalker.update is called from "+c.name(cs.Parent())+", outside the validating receive loop")
+		c.R.Check(c.onlyIn(cs, c.name(loop)), rule, c.siteName(cs)+"/caller", c.pos(cs), "update is called from the receive loop", "dynamicWalker.update is called from "+c.name(cs.Parent())+", outside the validating receive loop")
 	}
 }
 
@@ -609,7 +611,7 @@ func r03_5(c *Ctx, rule string) {
 	if f != nil {
 		for _, m := range fieldMutations(c, f) {
 			n++
-			c.R.Check(c.name(m.Parent()) == "fsutil.(*receiver).asyncDataFunc", rule, fmt.Sprintf("receiver.pipes/mutation#%d", n), c.pos(m), "pipes are registered/removed only by asyncDataFunc", "receiver.pipes is modified in "+c.name(m.Parent()))
+			c.R.Check(c.onlyIn(m, "fsutil.(*receiver).asyncDataFunc"), rule, fmt.Sprintf("receiver.pipes/mutation#%d", n), c.pos(m), "pipes are registered/removed only by asyncDataFunc", "receiver.pipes is modified in "+c.name(m.Parent()))
 		}
 	}
 	c.R.Floor(rule, "mutations of receiver.pipes", n, 2)
@@ -637,7 +639,7 @@ var fsCallTable = map[string]fsClass{
 	"golang.org/x/sys/unix.Lchown": fsNoFollow, "syscall.Lchown": fsNoFollow, "golang.org/x/sys/unix.Lstat": fsNoFollow,
 	"golang.org/x/sys/unix.UtimesNanoAt": fsNoFollow, // flag checked separately
 	"os.MkdirAll":                        fsFollow,
-	"os.Stat": fsFollow, "os.Open": fsFollow, "os.OpenFile": fsFollow, "os.Create": fsFollow, "os.Chmod": fsFollow,
+	"os.Stat":                            fsFollow, "os.Open": fsFollow, "os.OpenFile": fsFollow, "os.Create": fsFollow, "os.Chmod": fsFollow,
 	"os.Chown": fsFollow, "os.Chtimes": fsFollow, "os.Truncate": fsFollow, "os.ReadFile": fsFollow, "os.WriteFile": fsFollow,
 	"os.ReadDir": fsFollow, "os.Chdir": fsFollow,
 	"github.com/containerd/continuity/sysx.Setxattr": fsFollow, "github.com/containerd/continuity/sysx.Getxattr": fsFollow,
@@ -655,8 +657,8 @@ var fsCallTable = map[string]fsClass{
 	"golang.org/x/sys/unix.CopyFileRange": fsNeutral, "golang.org/x/sys/unix.Mkfifo": fsNoFollow,
 	"github.com/containerd/continuity/fs.RootPath": fsNeutral,
 	"syscall.UTF16PtrFromString":                   fsNeutral, "syscall.UTF16FromString": fsNeutral, "golang.org/x/sys/windows.UTF16PtrFromString": fsNeutral,
-	"golang.org/x/sys/unix.Clonefileat":            fsNoFollow, // CLONE_NOFOLLOW flag checked separately
-	"golang.org/x/sys/unix.Clonefile":              fsNoFollow, "golang.org/x/sys/unix.Fclonefileat": fsNoFollow,
+	"golang.org/x/sys/unix.Clonefileat": fsNoFollow, // CLONE_NOFOLLOW flag checked separately
+	"golang.org/x/sys/unix.Clonefile":   fsNoFollow, "golang.org/x/sys/unix.Fclonefileat": fsNoFollow,
 }
 
 var fsPackages = []string{"os.", "syscall.", "golang.org/x/sys/unix.", "golang.org/x/sys/windows.", "github.com/containerd/continuity/sysx.", "io/ioutil.", "path/filepath.EvalSymlinks", "path/filepath.Walk", "path/filepath.Glob", "github.com/Microsoft/go-winio."}
